@@ -10,6 +10,8 @@ open Okane
 /-- a character that takes one byte and one display column -/
 def Narrow (w : Char → Nat) (c : Char) : Prop := c.utf8Size = 1 ∧ w c = 1
 
+instance (w : Char → Nat) (c : Char) : Decidable (Narrow w c) := inferInstanceAs (Decidable (_ ∧ _))
+
 /-- a text of one-byte, one-column characters -/
 def AsciiW (w : Char → Nat) (s : List Char) : Prop := ∀ c ∈ s, Narrow w c
 
@@ -67,5 +69,61 @@ def linesOf (s : List Char) : List (List Char) := linesAux s []
 
 /-- the account is not empty and does not start with a blank (true of every account the parser returns) -/
 def AccountOK (p : Posting) : Prop := ∃ c cs, p.account.toList = c :: cs ∧ c ≠ ' '
+
+/-! ## "no field holds a line feed" (true of every tree the parser returns: all these fields are cut out of one line) -/
+
+/-- the text holds no line feed -/
+def NoLF (s : String) : Prop := '\n' ∉ s.toList
+
+mutual
+def exprNoLF : Expr → Prop
+  | .neg e => exprNoLF e
+  | .bin _ l r => exprNoLF l ∧ exprNoLF r
+  | .val v => vexprNoLF v
+def vexprNoLF : VExpr → Prop
+  | .paren e => exprNoLF e
+  | .amt _ c => NoLF c
+end
+
+def exchangeNoLF : Exchange → Prop
+  | .total e => vexprNoLF e
+  | .rate e => vexprNoLF e
+
+def optNoLF {α} (f : α → Prop) : Option α → Prop
+  | none => True
+  | some x => f x
+
+def lotNoLF (l : Lot) : Prop := optNoLF exchangeNoLF l.price ∧ optNoLF NoLF l.note
+
+def metaValueNoLF : MetaValue → Prop
+  | .text s => NoLF s
+  | .expr s => NoLF s
+
+def metadataNoLF : Metadata → Prop
+  | .comment s => NoLF s
+  | .wordTags ts => ∀ t ∈ ts, NoLF t
+  | .keyValue k v => NoLF k ∧ metaValueNoLF v
+
+def postingAmountNoLF (a : PostingAmount) : Prop :=
+  vexprNoLF a.amount ∧ optNoLF exchangeNoLF a.cost ∧ lotNoLF a.lot
+
+def postingNoLF (p : Posting) : Prop :=
+  NoLF p.account ∧ optNoLF postingAmountNoLF p.amount ∧ optNoLF vexprNoLF p.balance ∧ ∀ m ∈ p.metadata, metadataNoLF m
+
+def txnNoLF (t : Transaction) : Prop :=
+  NoLF t.payee ∧ optNoLF NoLF t.code ∧ (∀ m ∈ t.metadata, metadataNoLF m) ∧ ∀ p ∈ t.posts, postingNoLF p
+
+/-- no single-line field of the entry holds a line feed (comment and note texts may: they are printed line by line) -/
+def entryNoLF : Entry → Prop
+  | .txn t => txnNoLF t
+  | .comment _ => True
+  | .applyTag k v => NoLF k ∧ optNoLF metaValueNoLF v
+  | .endApplyTag => True
+  | .include p => NoLF p
+  | .account n ds => NoLF n ∧ ∀ d ∈ ds, (match d with | .alias s => NoLF s | _ => True)
+  | .commodity n ds => NoLF n ∧ ∀ d ∈ ds, (match d with | .alias s => NoLF s | .format _ c => NoLF c | _ => True)
+
+/-- the number printer emits no line feed -/
+def NumNoLF (cx : Ctx) : Prop := ∀ v c, '\n' ∉ cx.num v c
 
 end Okane.Print
